@@ -23,6 +23,8 @@ pub mod c19;
 
 pub fn run(ctx: &Ctx, st: &mut Stats) -> bool {
     match ctx.prop.as_str() {
+        // development aid (not a registered check): every driver in light mode, all findings kept
+        "ALL" => c02::compose(ctx, st, &|_| true),
         "C02" => c02::run(ctx, st),
         "C03" => c03::run(ctx, st),
         _ => return run_one(ctx, st),
